@@ -191,6 +191,138 @@ theorem mono_deserializeG (chk dbg : Bool) : Mono (deserializeG readN chk dbg) :
       · exact mono_pure _
   · exact mono_pure _
 
+/-! ## No panic: the checked decoder has no `panic` result -/
+
+def NoPanic {σ α : Type} (p : Parser σ α) : Prop := ∀ s, p s ≠ .error .panic
+
+section NoPanic
+variable {σ : Type}
+
+theorem np_pure {α : Type} (a : α) : NoPanic (pure a : Parser σ α) := by
+  intro s h; simp [pure, Parser.pure] at h
+
+theorem np_fail {α : Type} (e : DecErr) (he : e ≠ .panic) : NoPanic (fail e : Parser σ α) := by
+  intro s h; simp only [fail, Except.error.injEq] at h; exact he h
+
+theorem np_bind {α β : Type} (p : Parser σ α) (f : α → Parser σ β) (hp : NoPanic p) (hf : ∀ a, NoPanic (f a)) :
+    NoPanic (p >>= f) := by
+  intro s h
+  simp only [bind, Parser.bind] at h
+  split at h
+  · rename_i a s' _
+    exact hf a s' h
+  · rename_i e he
+    simp only [Except.error.injEq] at h
+    subst h
+    exact hp s he
+
+theorem np_ofOption {α : Type} (e : DecErr) (he : e ≠ .panic) (x : Option α) :
+    NoPanic (ofOption e x : Parser σ α) := by
+  cases x with
+  | some a => exact np_pure a
+  | none => exact np_fail e he
+
+theorem np_readN (n : Nat) : NoPanic (readN n) := by
+  intro s h
+  unfold readN at h
+  split at h <;> simp at h
+
+theorem replayRuns_ne_panic : ∀ (runs : List (Nat × Nat)) (st : Store), replayRuns st runs ≠ .error .panic
+  | [], st => by simp [replayRuns]
+  | (s, len) :: rs, st => by
+    unfold replayRuns
+    split
+    · simp
+    · exact replayRuns_ne_panic rs _
+
+theorem np_ofExcept_replay (st : Store) (runs : List (Nat × Nat)) :
+    NoPanic (ofExcept (replayRuns st runs) : Parser σ Store) := by
+  intro s h
+  have := replayRuns_ne_panic runs st
+  cases hr : replayRuns st runs with
+  | ok a => rw [hr] at h; simp [ofExcept, Parser.pure] at h
+  | error e =>
+    rw [hr] at h this
+    simp only [ofExcept, fail, Except.error.injEq] at h
+    subst h
+    exact this rfl
+
+variable {R : Nat → Parser σ (List Nat)}
+
+theorem np_decodeRunStore (hR : ∀ n, NoPanic (R n)) : NoPanic (decodeRunStore R) := by
+  unfold decodeRunStore
+  apply np_bind _ _ (hR _); intro rb
+  apply np_bind _ _ (hR _); intro ib
+  exact np_ofExcept_replay _ _
+
+theorem np_decodeStore (hR : ∀ n, NoPanic (R n)) (dbg : Bool) (card : Nat) (isRun : Bool) :
+    NoPanic (decodeStore R true dbg card isRun) := by
+  unfold decodeStore
+  split
+  · apply np_bind _ _ (np_decodeRunStore hR); intro st
+    exact np_pure _
+  · split
+    · unfold decodeArrayStore
+      apply np_bind _ _ (hR _); intro vb
+      simp only [↓reduceIte]
+      split
+      · exact np_pure _
+      · exact np_fail _ (by decide)
+    · unfold decodeBitmapStore
+      apply np_bind _ _ (hR _); intro wb
+      simp only [↓reduceIte]
+      exact np_ofOption _ (by decide) _
+
+theorem np_decodeContainers (hR : ∀ n, NoPanic (R n)) (dbg : Bool) (rb : Option (List Nat)) :
+    ∀ (ds : List (Nat × Nat)) (i : Nat), NoPanic (decodeContainers R true dbg rb ds i)
+  | [], _ => by unfold decodeContainers; exact np_pure _
+  | (key, cardM1) :: ds, i => by
+    unfold decodeContainers
+    apply np_bind _ _ (np_decodeStore hR _ _ _); intro st
+    apply np_bind _ _ (np_decodeContainers hR dbg rb ds (i + 1)); intro cs
+    exact np_pure _
+
+theorem np_decodeHeader (hR : ∀ n, NoPanic (R n)) : NoPanic (decodeHeader R) := by
+  unfold decodeHeader
+  apply np_bind _ _ (hR _); intro cb
+  apply np_bind
+  · split
+    · apply np_bind _ _ (hR _); intro sb
+      exact np_pure _
+    · split
+      · exact np_pure _
+      · exact np_fail _ (by decide)
+  · rintro ⟨size, hasOffsets, hasRun⟩
+    apply np_bind
+    · split
+      · apply np_bind _ _ (hR _); intro bm
+        exact np_pure _
+      · exact np_pure _
+    · intro runBitmap
+      split
+      · exact np_fail _ (by decide)
+      · apply np_bind _ _ (hR _); intro db
+        apply np_bind
+        · split
+          · exact hR _
+          · exact np_pure _
+        · intro ob
+          exact np_pure _
+
+/-- the checked decoder never panics, over any reader that does not -/
+theorem np_deserializeG (hR : ∀ n, NoPanic (R n)) (dbg : Bool) : NoPanic (deserializeG R true dbg) := by
+  unfold deserializeG
+  apply np_bind _ _ (np_decodeHeader hR); intro h
+  apply np_bind _ _ (np_decodeContainers hR _ _ _ _); intro cs
+  simp only [↓reduceIte]
+  split
+  · exact np_fail _ (by decide)
+  · split
+    · exact np_fail _ (by decide)
+    · exact np_pure _
+
+end NoPanic
+
 /-! ## Simulation: the same decoder over two readers related by a projection of the reader state -/
 
 def Sim {σ' σ α : Type} (π : σ' → σ) (p' : Parser σ' α) (p : Parser σ α) : Prop :=
